@@ -155,7 +155,7 @@ def floors(tier):
     cells += [('route', r) for r in ('constructor.raw', 'constructor', 'set_val.raw', 'set_val', 'call')]
     cells += [('extprec', op, b) for op in ('__init__', 'resize', 'reset') for b in (True, False)] + [('extprec', '__getitem__', True), ('extprec', 'like', True), ('extprec', 'like', False)]
     cells += [('render', 'bin'), ('render', 'hex'), ('parse', 'bin', 'constructor', 'raw'), ('parse', 'hex', 'constructor', 'raw'), ('parse', 'bin', 'set_val', 'raw'),
-              ('not', '-'), ('and', 'Fxp'), ('or', '+mask'), ('xor', '-mask'), ('list-numpy-and-python-integers',)]
+              ('not', '-'), ('and', 'Fxp'), ('or', '+mask'), ('xor', '-mask'), ('list-numpy-and-python-integers',), ('render-store-render',), ('bitwise-non-row-major',)]
     return cells
 
 
@@ -246,6 +246,24 @@ def run_case(case, ctx):
             _try(lambda: Fxp(arr_, s, n, 0, overflow=o))
     zb = Fxp([[hi, 1], [lo, inr[0]]], s, n, nf, raw=True)        # codes beyond 2^63 next to short ones
     c11.roundtrip(ctx, zb, s, n, nf)
+    # the same rendering asked twice with an indexed store (in place) in between, by three store routes: the second rendering shows the new code
+    zr = Fxp([inr[0], inr[1], inr[2]], s, n, nf, raw=True)
+    for store_ in (lambda: zr.__setitem__(1, Fxp(inr[2], s, n, nf, raw=True)), lambda: zr.set_val(inr[0], raw=True, index=2), lambda: zr[0:2].set_val(inr[1], raw=True, index=0)):
+        _try(lambda: zr.bin())
+        _try(lambda: zr.hex())
+        _try(store_)
+        _try(lambda: zr.bin())
+        _try(lambda: zr.hex())
+        _try(lambda: zr.bin(frac_dot=True))
+    ctx.floor_hit(('render-store-render',))
+    # bitwise operators on two-dimensional operands that are not stored row-major (transposes, a reversed view), against arrays, rows and lists of masks
+    ob = np.empty(6, dtype=object)
+    ob[:] = [rng.randint(lo, hi) for _ in range(6)]
+    xt, yt = Fxp(oa, s, n, nf, raw=True), Fxp(ob.reshape(2, 3), s, n, 0, raw=True)
+    for f_ in (lambda: xt.T & yt.T, lambda: xt.T | yt.T, lambda: xt.T ^ yt.T, lambda: xt.T & [inr[0], -1 if s else hi], lambda: xt.T ^ np.array([inr[1], inr[2]], dtype=object),
+               lambda: xt[:, ::-1] | yt, lambda: xt & yt[:, ::-1], lambda: ~(xt.T), lambda: xt.T & yt.T[0]):
+        _try(f_)
+    ctx.floor_hit(('bitwise-non-row-major',))
     # objects derived from a wide one keep the indicator
     wide = Fxp([inr[0], inr[1]], s, n, nf, raw=True)
     _try(lambda: Fxp(inr[2], like=wide, raw=True))
